@@ -25,8 +25,12 @@ CHECKS = {
              ref="4.3", tech="symbolic execution of the pipeline on generated boundary texts + state injection with symbolic-length strings (symx Rope, z3 LIA)"),
  "C04": dict(text="The real main() is executed symbolically with the per-file analysis replaced by a nondeterministic stub (symbolic file class and diagnostic levels): for every sequence of 0..N files of the four classes, both formats, explicit / directory / repeated arguments: one verdict per file, OK iff no Error-level diagnostic, exit 0 iff all OK, no internal exception.",
              ref="4.4", tech="symbolic execution of norminette.__main__.main with a nondeterministic analysis stub (symx + z3); replay through the real CLI"),
- "C05": dict(text="Tokenizer totality by one-step induction: for every window of <=N symbolic ASCII characters and every start position one get_next_token() call returns and raises nothing (solver-decided per path class).",
-             ref="4.5", tech="symbolic execution of Lexer.get_next_token (symx + z3), one-step induction over the token stream"),
+ "C05": dict(text="Tokenizer totality by one-step induction (every window of <=N symbolic ASCII characters, every start position: get_next_token returns and raises nothing) and pipeline totality on text-level symbolic edits (one inserted lexeme of solver-chosen spelling at every token boundary, cuts, deletions, swaps): Registry.run returns or raises CParsingError, never another exception, never hangs.",
+             ref="4.5", tech="symbolic execution of the lexer step and of the whole pipeline on symbolically edited program text (symx + z3); hang candidates replayed natively"),
+ "C06": dict(text="Footprint invariant checked after every explored pipeline run (process-global state reachable from the analysis is unchanged, whatever the file: clean, erroneous, fatal or crashing) - one inductive step that covers histories of any length; plus a z3 query that the stable sort of the loaded rule priorities cannot depend on the import order, re-import under permuted directory listings, and direct A;B vs B runs.",
+             ref="4.6", tech="state-footprint invariant on symbolically explored runs (symx + z3) + z3 sort-stability query over the loaded priorities"),
+ "C07": dict(text="Monitor on every explored pipeline run (symbolic edits at every token boundary): each main-loop iteration consumes >= 1 token, segments tile the token stream, and an unrecognised token always ends the run with the fatal CParsingError (never a verdict).",
+             ref="4.7", tech="symbolic execution of the pipeline with a test-side monitor on Context.pop_tokens (symx + z3)"),
  "C08": dict(text="Comparator laws (irreflexive, asymmetric, transitive, total up to the printed key) of the real Error.__lt__/Highlight.__lt__ and ascending printed order after the real Errors.__iter__ sort, for symbolic diagnostics with unbounded integer positions; every witness is pushed through both real formatters and the outputs compared.",
              ref="4.8", tech="symbolic execution of the comparators and of list.sort driven by them (symx + z3 LIA); formatters compared natively on solver witnesses"),
  "C09": dict(text="Token/end/diagnostic positions equal an independent position scanner for every window of <=N symbolic characters and every symbolic start (line, col); induction over tokens extends it to whole files.",
